@@ -132,10 +132,8 @@ def check(ctx):
         scans.append(check_scan(ctx, repo, cname, fname))
     # R2
     if all(scans):
-        norm = []
-        for fi in scans:
-            body = deep_strip(fi.node.body)
-            norm.append("\n".join(ast.unparse(s) for s in body))
+        from ..src import alpha_text
+        norm = [alpha_text(fi) for fi in scans]
         ctx.ob("R2", "scan-siblings-agree", norm[0] == norm[1],
                f"{scans[0].qual} and {scans[1].qual} differ after normalisation: " + _first_diff(norm[0], norm[1]), scans[1].loc)
 
